@@ -202,9 +202,11 @@ def runProg {σ} (env : Env) (c : UInt8) : Prog σ → Sc σ → Tail σ
   | .failChar w e, s => .fault (ucErr env s w e)
   | .failBasic m, s => .fault (.err (.basic m) s.cur)
 
-/-- Evaluate the step function `st` on byte `c`, following tail calls (fuel-bounded). -/
+/-- Evaluate the step function `st` on byte `c`, following tail calls (fuel-bounded).
+    In Go a tail call is a real call: an unbounded chain is a stack overflow, so running out of
+    chain fuel is modelled as a crash (Props/C12 proves it cannot happen). -/
 def stepFuel {σ} (env : Env) (prog : σ → Prog σ) (c : UInt8) : Nat → σ → Sc σ → Except Fault (Sc σ)
-  | 0, _, _ => .error .fuel
+  | 0, _, _ => .error (.panic "step function recursion deeper than chainFuel")
   | n + 1, st, s =>
     match runProg env c (prog st) s with
     | .done s' => .ok s'
